@@ -14,7 +14,7 @@ from .. import gen, runner, profiles
 from .common import CapSim, guarded, fingerprint, first_diff, Summary
 
 PROFILE = {'horizons': [8.0, 12.0, 20.0], 'p_exact': 0.15, 'p_renege': 0.35, 'p_cct': 0.25, 'p_ccm': 0.3, 'p_batch': 0.3}
-BUDGET = {'quick': 96, 'thorough': 3000}
+BUDGET = {'quick': 160, 'thorough': 3000}
 
 
 def run_fresh(spec, seed, net=None, cap=6000):
